@@ -4,7 +4,7 @@
    flags, the finder's fallback on sys.path and the option forwarding of the public entry points are the definitions of
    Gen/C15_ladder.v, regenerated from loader.py / importer.py / finder.py / cli.py on every run. *)
 From Coq Require Import List ZArith String Bool Arith.
-From Verif Require Import Lib.Sexp Model.C15_base Gen.C15_ladder Model.C15_loader Proofs.C15_loader Proofs.C15_restore Proofs.C15_failures.
+From Verif Require Import Lib.Sexp Model.C15_base Gen.C15_ladder Model.C15_loader Proofs.C15_loader Proofs.C15_restore Proofs.C15_failures Proofs.C15_reads.
 Import ListNotations.
 Open Scope list_scope. Open Scope nat_scope.
 
@@ -151,3 +151,12 @@ Theorem C15_system_exit_never_escapes_entry :
   forall allow force store phases s, fst (run_phases allow force store phases s) <> Some XSystemExit.
 Proof. exact system_exit_never_escapes_entry. Qed.
 Print Assumptions C15_system_exit_never_escapes_entry.
+
+(* Which files the loader reads itself (read_text): only source files (.py / .pyi) -- the visitor is only handed sources, and
+   _inspect_module only reads the sources it stores -- whatever the options, the world, the nesting and the entry point;
+   compiled files are at most handed to the import system. *)
+Theorem C15_reads_are_sources :
+  forall allow force store phases s r s',
+    reads_source_only s -> run_phases allow force store phases s = (r, s') -> reads_source_only s'.
+Proof. exact reads_are_sources. Qed.
+Print Assumptions C15_reads_are_sources.
